@@ -53,6 +53,11 @@ pub enum Item {
     /// a volume-label entry whose 11 bytes spell a name from the pool: files and directories of
     /// the same name may stand before or behind it
     NamedLabel { name: [u8; 11] },
+    /// 1-5 long-name slots with ordinal bytes drawn from the interesting values (valid, doubled
+    /// start, bit 7, bit 5, 0x40 alone), each with the right or a wrong checksum and any of the
+    /// attribute bytes that mean "long name" (0x0F, 0x4F, 0x8F, 0xCF), then the short entry. Only
+    /// the reader's strict rule says whether that amounts to a name.
+    FragSoup { frags: Vec<(u8, bool, u8, u16)>, name: [u8; 11] },
 }
 
 #[derive(Clone, Debug, PartialEq)]
@@ -150,6 +155,24 @@ pub fn build_items(items: &[Item], fat32: bool, lfn_cap: usize) -> (Vec<Slot>, V
                 e[20..22].copy_from_slice(&((*cluster >> 16) as u16).to_le_bytes());
                 slots.push(Slot::Raw(vec![e]));
                 exp.push(if prev_was_junk { Expect::DontCare } else { Expect::NoName });
+            }
+            Item::FragSoup { frags, name } => {
+                let csum = lfn_checksum(name);
+                let mut pre = Vec::new();
+                for (ord, ok, attr_hi, seed) in frags {
+                    let mut units = [0xFFFFu16; 13];
+                    for (k, u) in units.iter_mut().enumerate().take(1 + (*seed as usize % 13)) {
+                        *u = 0x41 + ((*seed as usize + k * 7) % 26) as u16;
+                    }
+                    if (*seed as usize % 13) < 12 {
+                        units[1 + (*seed as usize % 13)] = 0;
+                    }
+                    let mut r = lfn_slot(if *ord == 0 || *ord == 0xE5 { 0x41 } else { *ord }, &units, if *ok { csum } else { csum.wrapping_add(1 + (*seed as u8 % 200)) });
+                    r[11] = 0x0F | (*attr_hi & 0xC0);
+                    pre.push(r);
+                }
+                slots.push(Slot::File { name: *name, attr: 0x20, size: 0, seed: 0, extra: 0, times: t, pre });
+                exp.push(Expect::DontCare);
             }
             Item::End => {
                 slots.push(Slot::Raw(vec![[0u8; 32]]));
@@ -562,6 +585,36 @@ fn compare_dir(
                     acc.class("lfn:expectation-misaligned");
                 }
             }
+            // second oracle, for *every* listed entry (also the ones next to junk, where the
+            // generator cannot say what the bytes amount to): the independent reader's decision
+            // by the strict rule - a run N|0x40, N-1, .., 1 (N <= 20, no other bit in the ordinal
+            // byte), one checksum throughout, directly in front of the entry, equal to the
+            // checksum of the entry's 11 name bytes
+            if got.len() == want.len() && got.iter().zip(want.iter()).all(|(g, w)| g.e.entry_block.0 == w.block && g.e.entry_offset == w.off) {
+                let cap = mode.unwrap();
+                for (g, w) in got.iter().zip(want.iter()) {
+                    let lfn = g.lfn.clone().unwrap();
+                    match &w.lfn {
+                        None => {
+                            if let Some(s) = lfn {
+                                return Err(fail("C17", "long-name-for-entry-without-run", format!("{}: entry {:?} (block {} offset {}) reported with long name {:?}; by the reader's strict rule no complete matching run precedes it", what, g.e.name, w.block, w.off, s)));
+                            }
+                            acc.class("lfn-reader:must-not-report");
+                        }
+                        Some(units) => {
+                            let s = String::from_utf16_lossy(units);
+                            if s.len() <= cap {
+                                if lfn.as_deref() != Some(s.as_str()) {
+                                    return Err(fail("C17", "long-name-missing-or-wrong", format!("{}: entry {:?} (block {} offset {}) reported with {:?}; the reader's strict rule gives {:?}", what, g.e.name, w.block, w.off, lfn, s)));
+                                }
+                                acc.class("lfn-reader:must-report");
+                            } else {
+                                acc.class("lfn-reader:does-not-fit");
+                            }
+                        }
+                    }
+                }
+            }
         }
     }
     Ok(())
@@ -962,6 +1015,7 @@ fn item_code(i: &Item) -> u8 {
         Item::LfnSpelling { .. } => 32,
         Item::Label => 33,
         Item::NamedLabel { .. } => 37,
+        Item::FragSoup { .. } => 38,
         Item::End => 35,
         Item::WildDir { .. } => 36,
         Item::Junk(_) => 34,
@@ -979,6 +1033,7 @@ fn item_name(i: &Item) -> String {
         Item::LfnSpelling { .. } => "lfn-fragment-spelling-a-short-name".into(),
         Item::Label => "label".into(),
         Item::NamedLabel { .. } => "named-label".into(),
+        Item::FragSoup { frags, .. } => format!("frag-soup:{}", frags.len()),
         Item::End => "end-marker".into(),
         Item::WildDir { cluster, .. } => format!("wild-dir:{:#x}", cluster),
         Item::Junk(_) => "junk".into(),
@@ -1029,6 +1084,7 @@ pub fn item_strategy(c17_bias: bool) -> BoxedStrategy<Item> {
         1 => prop_oneof![Just(0x4242u16), Just(0x4343u16)].prop_map(|tail| Item::LfnSpelling { tail }),
         1 => Just(Item::Label),
         2 => gen::pool_name().prop_map(|name| Item::NamedLabel { name }),
+        w_broken => (prop::collection::vec((prop_oneof![Just(0x41u8), Just(0x42u8), Just(0x43u8), Just(0x01u8), Just(0x02u8), Just(0x03u8), Just(0x40u8), Just(0xC1u8), Just(0x81u8), Just(0x61u8), Just(0x21u8), Just(0x54u8), Just(0x55u8), Just(0x14u8), any::<u8>()], prop::bool::weighted(0.8), any::<u8>(), any::<u16>()), 1..6), entry_name()).prop_map(|(frags, name)| Item::FragSoup { frags, name }),
         2 => any::<[u8; 32]>().prop_map(Item::Junk),
         1 => Just(Item::End),
         1 => (entry_name(), prop_oneof![Just(1u32), Just(0x0FFF_FFF0u32), Just(0xFFFF_FFF0u32), Just(0x0FFF_FFFFu32), Just(0xFFF7u32), Just(0xFFFFu32), Just(0x4000_0000u32), (300_000u32..400_000), any::<u32>()]).prop_map(|(name, cluster)| Item::WildDir { name, cluster }),
